@@ -157,4 +157,35 @@ structure TotpExt where
   matched : Str → Str → Int → Int → Int × Bool
   saveResult : Str → userProfile → Option Err
 
+/-! ### cmd/keymasterd `unsealCA` -/
+
+inductive KeyFile | main | ed25519
+deriving DecidableEq, Repr
+
+/-- what `unsealCA` does, in program order -/
+inductive SealEffect
+  | lock | unlock                                 -- state.Mutex
+  | loadSigners (main : Str) (ed : Str)           -- loadSignersFromPemData(plaintext keys): assigns the signers
+  | publishKeys                                   -- signerPublicKeyToKeymasterKeys()
+  | ready (b : Bool)                              -- state.SignerIsReady <- true
+deriving DecidableEq, Repr
+
+/-- externals of `unsealCA`: PGP decryption of a key file with the posted passphrase, and what loading the signers
+from the plaintext returns -/
+structure SealExt where
+  decrypt : KeyFile → Str → Str × Option Err
+  loadResult : Str → Str → Option Err
+
+/-! ### cmd/keymasterd `IsAdminUser` (the admin cache in front of the directory) -/
+
+inductive AdminEffect
+  | lookup (user : Str)                 -- _IsAdminUser(user): the directory is asked
+  | put (user : Str) (verdict : Bool)   -- isAdminCache.Put(user, verdict): stored with a fresh time stamp
+deriving DecidableEq, Repr
+
+/-- externals: `isAdminCache.Get(user)` = (cached verdict, still valid?) and `_IsAdminUser(user)` = (verdict, error) -/
+structure AdminCacheExt where
+  cacheGet : Str → Bool × Bool
+  lookup : Str → Bool × Option Err
+
 end KM.GoTypes
